@@ -292,7 +292,10 @@ def batch_family(which, lo, hi, seed):
     class _Slow(BaseException):
         pass
 
+    fired = [False]
+
     def _alarm(sig, frm):
+        fired[0] = True
         raise _Slow()
     signal.signal(signal.SIGALRM, _alarm)
     res['skipped_slow'] = 0
@@ -301,11 +304,14 @@ def batch_family(which, lo, hi, seed):
         res['native_runs'] += 1
         if isinstance(t, tuple):
             res['nontrivial'] += 1
+        fired[0] = False
         signal.alarm(4)
         try:
             found = check_tree(t)
-        except _Slow:
-            res['skipped_slow'] += 1     # CNF blow-up on a deep tree: a time limit is not a verdict
+        except BaseException:
+            if not fired[0]:
+                raise
+            res['skipped_slow'] += 1     # CNF blow-up on a deep tree (the alarm may surface through a z3 callback): a time limit is not a verdict
             continue
         finally:
             signal.alarm(0)
